@@ -309,13 +309,17 @@ func (r *Report) finish() int {
 		"notes":               r.Notes,
 		"exhaustive":          false,
 	}
+	assume := append([]string{
+		"go/types, go/ssa and the VTA call graph of golang.org/x/tools v0.29.0 model the program faithfully (reflection is invisible to them; functions without a rulio caller are treated as entries)",
+		"the anchors (types, methods, fields, interface implementers) resolved through go/types on this run are the ones the rules were written for; an unresolved anchor is UNDECIDED, never a pass",
+	}, r.Assume...)
 	ev := map[string]interface{}{
 		"property_id": r.Property,
 		"tier":        r.Tier,
 		"seed":        r.Seed,
 		"level":       "other",
 		"coverage":    cov,
-		"assumptions": r.Assume,
+		"assumptions": assume,
 		"wall_s":      time.Since(r.Start).Seconds(),
 		"violations":  len(unlisted),
 	}
